@@ -4,12 +4,16 @@ pub mod errs;
 pub mod hooks;
 pub mod obs;
 pub mod rdr;
+pub mod refscalar;
 pub mod reftree;
 pub mod rng;
+pub mod scalarcorpus;
 pub mod targets;
 pub mod treegen;
 pub mod run;
 pub mod val;
+pub mod ty;
+pub mod tygen;
 pub mod ydoc;
 
 pub use rng::{Rng, fnv, fnv_parts};
